@@ -452,3 +452,8 @@ def check(run):
     r4_store_side(run)
     r5_accessors_pass_binding(run)
     r6_verify_acs(run)
+    # the store the accessors read is built with each option bound to the
+    # parameter it is named after (also through super().__init__)
+    from ..common_rules import misplaced_rule
+    misplaced_rule(run, "R7", {"mdstore"}, "constructing the metadata "
+                   "sources whose validity filter decides which requesters exist")
